@@ -197,11 +197,11 @@ func TmplFactory() []byte {
 	child := InitCodeFor(TmplStore(), func(a *Asm) { a.Push(0x11).Push(1).Op(vm.SSTORE) })
 	a := NewAsm()
 	a.Push(len(child)).PushLabel("child").Push(0).Op(vm.CODECOPY)
-	a.Push(len(child)).Push(0)                       // size, offset
-	a.Push(2).Op(vm.CALLVALUE, vm.DIV)               // value
-	a.Op(vm.CREATE)                                  // addr
-	a.Push(0).Op(vm.MSTORE)                          // mem[0]=addr
-	a.Push(5).Push(32).Push(0).Op(vm.LOG1)           // log the address
+	a.Push(len(child)).Push(0)             // size, offset
+	a.Push(2).Op(vm.CALLVALUE, vm.DIV)     // value
+	a.Op(vm.CREATE)                        // addr
+	a.Push(0).Op(vm.MSTORE)                // mem[0]=addr
+	a.Push(5).Push(32).Push(0).Op(vm.LOG1) // log the address
 	a.Push(0).Op(vm.CALLDATALOAD).PushLabel("rv").Op(vm.JUMPI)
 	a.Push(32).Push(0).Op(vm.RETURN)
 	a.Label("rv")
@@ -217,14 +217,30 @@ func TmplProxy() []byte {
 	a.Push(64).Op(vm.CALLDATASIZE, vm.SUB) // len = size-64 (underflows if <64; callers always pass >=64)
 	a.Op(vm.DUP1).Push(64).Push(0).Op(vm.CALLDATACOPY)
 	// call
-	a.Push(0).Push(0)                  // outSize, outOffset
-	a.Op(vm.DUP3).Push(0)              // inSize, inOffset
-	a.Push(32).Op(vm.CALLDATALOAD)     // value
-	a.Push(0).Op(vm.CALLDATALOAD)      // to
-	a.Op(vm.GAS, vm.CALL)              // success
-	a.Push(0).Op(vm.MSTORE)            // mem[0]=success
+	a.Push(0).Push(0)              // outSize, outOffset
+	a.Op(vm.DUP3).Push(0)          // inSize, inOffset
+	a.Push(32).Op(vm.CALLDATALOAD) // value
+	a.Push(0).Op(vm.CALLDATALOAD)  // to
+	a.Op(vm.GAS, vm.CALL)          // success
+	a.Push(0).Op(vm.MSTORE)        // mem[0]=success
 	a.Push(3).Push(32).Push(0).Op(vm.LOG1)
 	a.Push(32).Push(0).Op(vm.RETURN)
+	return a.Bytes()
+}
+
+// TmplMulti: for every 32-byte word of the call data: CALL(gas, addr=word, value 0, no data); results ignored.
+func TmplMulti() []byte {
+	a := NewAsm()
+	a.Push(0) // i
+	a.Label("loop")
+	a.Op(vm.DUP1, vm.CALLDATASIZE, vm.GT, vm.ISZERO).PushLabel("done").Op(vm.JUMPI)
+	a.Push(0).Push(0).Push(0).Push(0).Push(0) // outSize outOff inSize inOff value
+	a.Op(vm.DUP6, vm.CALLDATALOAD)            // addr
+	a.Op(vm.GAS, vm.CALL, vm.POP)
+	a.Push(32).Op(vm.ADD)
+	a.PushLabel("loop").Op(vm.JUMP)
+	a.Label("done")
+	a.Op(vm.STOP)
 	return a.Bytes()
 }
 
